@@ -5,8 +5,8 @@
    code as written, Fixed = sweeps driven by the bumped radius, finding F2); Spec.MedianSpec is
    the octagon ∩ image ∩ mask percentile and its checker. *)
 From Coq Require Import ZArith List Bool Sorted Permutation.
-From Centro Require Import Model.Median Spec.MedianSpec Proofs.MedianCheck Proofs.MedianHist
-  Proofs.MedianGeom Proofs.MedianRank Proofs.MedianRefute Proofs.MedianSlide Proofs.MedianStep Proofs.MedianInv Proofs.MedianWrap.
+From Centro Require Import Gen.MedianConstC07 Model.Median Spec.MedianSpec Proofs.MedianCheck Proofs.MedianHist
+  Proofs.MedianGeom Proofs.MedianRank Proofs.MedianRefute Proofs.MedianSlide Proofs.MedianStep Proofs.MedianInv Proofs.MedianWrap Model.MedianAlloc Proofs.MedianAllocProofs Proofs.MedianWinSmall.
 From Centro Require Model.VecC18 Model.RankC18.
 Import ListNotations.
 Open Scope Z_scope.
@@ -309,6 +309,19 @@ Theorem C07_WinSmall_of_small_image : forall mask rows cols radius,
 Proof. exact WinSmall_of_small_image. Qed.
 Print Assumptions C07_WinSmall_of_small_image.
 
+(* the uint16 premise holds for every radius <= 127 (window inside the (2R+1)-square), so for the
+   radii of the property the Full theorem needs no size premise; it is sharp further out: the
+   octagon of radius 141 has 66145 points and the compiled kernel then returns 0 on a constant image *)
+Theorem C07_WinSmall_of_radius : forall mask rows cols radius, 1 <= radius <= 127 -> WinSmall mask rows cols radius.
+Proof. exact WinSmall_of_radius. Qed.
+Print Assumptions C07_WinSmall_of_radius.
+
+Theorem C07_sliding_invariant_asis_127 : forall data mask radius percent,
+  2 <= radius <= 127 -> 0 <= percent <= 100 -> Masked8 data mask ->
+  MedianSpec data mask radius percent (kernel AsIs data mask radius percent).
+Proof. exact sliding_invariant_asis_127. Qed.
+Print Assumptions C07_sliding_invariant_asis_127.
+
 (* for radius >= 2 the code as written is the Fixed variant *)
 Theorem C07_asis_is_fixed : forall data mask radius percent, 2 <= radius ->
   kernel AsIs data mask radius percent = kernel Fixed data mask radius percent.
@@ -417,6 +430,40 @@ Theorem C07_median_filter_model_merged : forall intlike orders data mask radius 
     (Masked8 L mask -> WinSmall mask (img_rows L) (img_cols L) radius -> MedianSpec L mask radius percent (kernel AsIs L mask radius percent)).
 Proof. exact median_filter_model_merged. Qed.
 Print Assumptions C07_median_filter_model_merged.
+
+(* ---------------------------------------------------------------- F23: the 32-bit scratch size
+
+   The theorems above are about the kernel's arithmetic on unbounded lists; the compiled code keeps
+   the histograms in ONE malloc'ed block whose size is computed into `unsigned int memory_size`
+   (Model.MedianAlloc, constants regenerated from _filter.cpp).  They carry over to the compiled
+   code exactly for stripe_length = columns + 2*radius + 1 < 1573248: *)
+Theorem C07_alloc_size_exact_below : forall columns radius, 0 <= columns -> 0 <= radius ->
+  columns + 2 * radius + 1 < alloc_threshold ->
+  alloc_size_asis columns radius = alloc_exact columns radius /\
+  alloc_wraps columns radius = false /\
+  alloc_need_max columns radius <= alloc_size_asis columns radius.
+Proof. exact alloc_size_exact_below. Qed.
+Print Assumptions C07_alloc_size_exact_below.
+
+(* the bound is sharp: from 1573248 on the size wraps and the block is at least 4 GiB short *)
+Theorem C07_alloc_size_short_above : forall columns radius, 0 <= columns -> 0 <= radius ->
+  alloc_threshold <= columns + 2 * radius + 1 < M32 ->
+  alloc_wraps columns radius = true /\ alloc_size_asis columns radius + M32 <= alloc_exact columns radius.
+Proof. exact alloc_size_short_above. Qed.
+Print Assumptions C07_alloc_size_short_above.
+
+(* "the block covers what the kernel touches" is refuted for the code as written: 1 x 1573243,
+   radius 2: malloc(600), and the first update_current_location writes edge slot 8, > 15 MB in *)
+Theorem C07_alloc_size_wrap_refuted :
+  exists columns radius, 1 <= columns /\ 2 <= radius /\
+    let e := env_of_shape 1 columns radius 50 in
+    let o := lead_ix e (- e_sweep e) in
+    alloc_wraps columns radius = true /\ alloc_size_asis columns radius = 600 /\
+    e_SL e = alloc_threshold /\ 0 <= o < e_SL e /\
+    alloc_size_asis columns radius < gen_sz_histograms + e_SL e * gen_sz_pixelcount /\
+    alloc_size_asis columns radius < slot_end columns radius o.
+Proof. exact alloc_size_wrap_refuted. Qed.
+Print Assumptions C07_alloc_size_wrap_refuted.
 
 (* ---------------------------------------------------------------- F2 *)
 
